@@ -80,12 +80,36 @@ Qed.
 
 Definition wf (s : state) : Prop := NoDup (map fst s).
 
+Lemma clean_wf s e spe : wf s -> wf (clean s e spe).
+Proof.
+  unfold wf, clean. intro H. destruct (e <=? retention); [exact H | apply nodup_filter; exact H].
+Qed.
+
+Lemma pstep_wf s pend e : wf s -> wf (fst (fst (pstep s pend e))).
+Proof.
+  intro H. destruct e as [i r | i r f | r sl | ce spe]; cbn [pstep].
+  - destruct (get s r); exact H.
+  - destruct (memb N.eqb i pend); [|exact H]. destruct f; cbn [fst]; [apply nodup_set; exact H | exact H].
+  - apply nodup_set; exact H.
+  - apply clean_wf; exact H.
+Qed.
+
+Lemma par_run_wf evs : forall s pend, wf s -> wf (fst (par_run s pend evs)).
+Proof.
+  induction evs as [|e evs IH]; intros s pend H; cbn [par_run]; [exact H|].
+  pose proof (pstep_wf s pend e H) as H1.
+  destruct (pstep s pend e) as [[s1 pend1] a]. cbn [fst] in H1.
+  specialize (IH s1 pend1 H1). destruct (par_run s1 pend1 evs) as [s2 ans]. exact IH.
+Qed.
+
 Lemma step_wf s o : wf s -> wf (fst (step s o)).
 Proof.
-  unfold wf. intro H. destruct o as [r sl | r f | e spe]; cbn [step fst].
+  intro H. destruct o as [r sl | r f | e spe | r sl blk | evs]; cbn [step fst].
   - apply nodup_set; exact H.
   - destruct (get s r); cbn [fst]; [exact H|]. destruct f; cbn [fst]; [apply nodup_set; exact H | exact H].
-  - unfold clean. destruct (e <=? retention); [exact H | apply nodup_filter; exact H].
+  - apply clean_wf; exact H.
+  - exact H.
+  - pose proof (par_run_wf evs s [] H) as H1. destruct (par_run s [] evs) as [s' ans]. exact H1.
 Qed.
 
 (* --- clean ----------------------------------------------------------------------------- *)
@@ -108,10 +132,19 @@ Qed.
 Section Chain.
   Variable slot_of : root -> slot.
 
+  (* block events and successful header fetches report the chain's slot for the root *)
+  Definition pev_consistent (e : pev) : Prop :=
+    match e with
+    | PEvent r sl => sl = slot_of r
+    | PEnd _ r (Some sl) => sl = slot_of r
+    | _ => True
+    end.
+
   Definition op_consistent (o : op) : Prop :=
     match o with
     | Event r sl => sl = slot_of r
     | Lookup r (Some sl) => sl = slot_of r
+    | Par evs => Forall pev_consistent evs
     | _ => True
     end.
 
@@ -120,20 +153,89 @@ Section Chain.
   Lemma inv_init : Inv init.
   Proof. split; [constructor | cbn; discriminate]. Qed.
 
+  Lemma inv_set s r : Inv s -> Inv (set s r (slot_of r)).
+  Proof.
+    intros [Hwf Hs]. split; [apply nodup_set; exact Hwf|].
+    intros r' sl'. rewrite get_set. destruct (r =? r') eqn:E; [|apply Hs].
+    apply N.eqb_eq in E. intro H; injection H as <-. subst; reflexivity.
+  Qed.
+
+  Lemma inv_clean s e spe : Inv s -> Inv (clean s e spe).
+  Proof.
+    intros [Hwf Hs]. split; [apply clean_wf; exact Hwf|].
+    intros r sl. rewrite get_clean by exact Hwf.
+    destruct (e <=? retention); [apply Hs|].
+    destruct (get s r) as [sl0|] eqn:G; [|discriminate].
+    destruct (sl0 <? min_slot e spe); [discriminate|]. intro H; injection H as <-. apply Hs; exact G.
+  Qed.
+
+  (* one micro-event of a group of overlapping lookups: the invariant is kept, and an answer that
+     carries a slot carries the chain's slot of the root asked for *)
+  Lemma pstep_inv s pend e : Inv s -> pev_consistent e -> Inv (fst (fst (pstep s pend e))).
+  Proof.
+    intros Hi Hc. destruct e as [i r | i r f | r sl | ce spe]; cbn [pstep pev_consistent] in *.
+    - destruct (get s r); exact Hi.
+    - destruct (memb N.eqb i pend); [|exact Hi].
+      destruct f as [sl|]; cbn [fst]; [subst sl; apply inv_set; exact Hi | exact Hi].
+    - subst sl. apply inv_set; exact Hi.
+    - apply inv_clean; exact Hi.
+  Qed.
+
+  Lemma pstep_answer_correct s pend e i r sl : Inv s -> pev_consistent e ->
+    snd (pstep s pend e) = Some (i, r, Some sl) -> sl = slot_of r.
+  Proof.
+    intros [_ Hs] Hc. destruct e as [j r' | j r' f | r' sl' | ce spe]; cbn [pstep pev_consistent] in *.
+    - destruct (get s r') as [sl0|] eqn:G; cbn [snd]; [|discriminate].
+      intro H; injection H as <- <- <-. apply Hs; exact G.
+    - destruct (memb N.eqb j pend); cbn [snd]; [|discriminate].
+      destruct f as [sl0|]; cbn [snd]; intro H; [|discriminate]. injection H as <- <- <-. exact Hc.
+    - discriminate.
+    - discriminate.
+  Qed.
+
+  Lemma par_run_inv evs : forall s pend, Inv s -> Forall pev_consistent evs ->
+    Inv (fst (par_run s pend evs)).
+  Proof.
+    induction evs as [|e evs IH]; intros s pend Hi Hc; cbn [par_run]; [exact Hi|].
+    inversion Hc as [|? ? He Hrest]; subst.
+    pose proof (pstep_inv s pend e Hi He) as H1.
+    destruct (pstep s pend e) as [[s1 pend1] a]. cbn [fst] in H1.
+    specialize (IH s1 pend1 H1 Hrest). destruct (par_run s1 pend1 evs) as [s2 ans]. exact IH.
+  Qed.
+
+  Lemma par_run_answers_correct evs : forall s pend, Inv s -> Forall pev_consistent evs ->
+    forall i r sl, In (i, r, Some sl) (snd (par_run s pend evs)) -> sl = slot_of r.
+  Proof.
+    induction evs as [|e evs IH]; intros s pend Hi Hc i r sl Hin; cbn [par_run] in Hin; [destruct Hin|].
+    inversion Hc as [|? ? He Hrest]; subst.
+    pose proof (pstep_inv s pend e Hi He) as H1.
+    pose proof (pstep_answer_correct s pend e i r sl Hi He) as H2.
+    destruct (pstep s pend e) as [[s1 pend1] a]. cbn [fst snd] in H1, H2.
+    specialize (IH s1 pend1 H1 Hrest i r sl).
+    destruct (par_run s1 pend1 evs) as [s2 ans]. cbn [snd] in *.
+    destruct a as [x|]; [|apply IH; exact Hin].
+    destruct Hin as [Hx|Hin]; [subst x; apply H2; reflexivity | apply IH; exact Hin].
+  Qed.
+
   Lemma step_inv s o : Inv s -> op_consistent o -> Inv (fst (step s o)).
   Proof.
-    intros [Hwf Hs] Hc. split; [apply step_wf; exact Hwf|].
-    destruct o as [r sl | r f | e spe]; cbn [step fst op_consistent] in *.
-    - intros r' sl'. rewrite get_set. destruct (r =? r') eqn:E; [|apply Hs].
-      apply N.eqb_eq in E. intro H; injection H as <-. subst; reflexivity.
-    - destruct (get s r) eqn:G; cbn [fst]; [exact Hs|].
-      destruct f as [sl|]; cbn [fst]; [|exact Hs].
-      intros r' sl'. rewrite get_set. destruct (r =? r') eqn:E; [|apply Hs].
-      apply N.eqb_eq in E. intro H; injection H as <-. subst; reflexivity.
-    - intros r sl. rewrite get_clean by exact Hwf.
-      destruct (e <=? retention); [apply Hs|].
-      destruct (get s r) as [sl0|] eqn:G; [|discriminate].
-      destruct (sl0 <? min_slot e spe); [discriminate|]. intro H; injection H as <-. apply Hs; exact G.
+    intros Hi Hc.
+    destruct o as [r sl | r f | e spe | r sl blk | evs]; cbn [step fst op_consistent] in *.
+    - subst sl. apply inv_set; exact Hi.
+    - destruct (get s r) eqn:G; cbn [fst]; [exact Hi|].
+      destruct f as [sl|]; cbn [fst]; [|exact Hi]. subst sl. apply inv_set; exact Hi.
+    - apply inv_clean; exact Hi.
+    - exact Hi.
+    - pose proof (par_run_inv evs s [] Hi Hc) as H1. destruct (par_run s [] evs) as [s' ans]. exact H1.
+  Qed.
+
+  Lemma step_par_correct s evs ans i r sl : Inv s -> op_consistent (Par evs) ->
+    snd (step s (Par evs)) = OMany ans -> In (i, r, Some sl) ans -> sl = slot_of r.
+  Proof.
+    intros Hi Hc. cbn [step op_consistent] in *.
+    pose proof (par_run_answers_correct evs s [] Hi Hc i r sl) as H1.
+    destruct (par_run s [] evs) as [s' ans']. cbn [snd] in *.
+    intro H; injection H as <-. exact H1.
   Qed.
 
   Lemma step_out_correct s r f sl : Inv s -> op_consistent (Lookup r f) ->
@@ -170,7 +272,71 @@ Section Chain.
       apply (step_out_correct s r f sl Hi Ho). rewrite Es. reflexivity.
     - apply (IH s1 Hi1 Hrest i r f sl Hop). rewrite Er. exact Hout.
   Qed.
+  Lemma run_par_correct ops : forall s, Inv s -> Forall op_consistent ops ->
+    forall k evs ans i r sl,
+      nth_error ops k = Some (Par evs) ->
+      nth_error (snd (run s ops)) k = Some (OMany ans) ->
+      In (i, r, Some sl) ans ->
+      sl = slot_of r.
+  Proof.
+    induction ops as [|o ops IH]; intros s Hi Hc k evs ans i r sl Hop Hout Hin; [destruct k; discriminate|].
+    inversion Hc as [|? ? Ho Hrest]; subst.
+    pose proof (step_inv s o Hi Ho) as Hi1.
+    cbn in Hout. destruct (step s o) as [s1 x] eqn:Es. cbn in Hi1.
+    destruct (run s1 ops) as [s2 xs] eqn:Er. cbn in Hout.
+    destruct k as [|k]; cbn in *.
+    - injection Hop as ->. injection Hout as ->.
+      apply (step_par_correct s evs ans i r sl Hi Ho); [rewrite Es; reflexivity | exact Hin].
+    - apply (IH s1 Hi1 Hrest k evs ans i r sl Hop); [rewrite Er; exact Hout | exact Hin].
+  Qed.
 End Chain.
+
+(* --- overlapping lookups: a failed fetch is an error for the goroutine that fetched, it stores
+   nothing, and an error answer arises in no other way ------------------------------------- *)
+
+Lemma pstep_failed_fetch s pend i r : memb N.eqb i pend = true ->
+  pstep s pend (PEnd i r None) = (s, remove_id i pend, Some (i, r, None)).
+Proof. intro H. cbn [pstep]. rewrite H. reflexivity. Qed.
+
+Lemma pstep_err_iff s pend e i r :
+  snd (pstep s pend e) = Some (i, r, None) <-> (e = PEnd i r None /\ memb N.eqb i pend = true).
+Proof.
+  destruct e as [j r' | j r' f | r' sl' | ce spe]; cbn [pstep].
+  - destruct (get s r'); cbn [snd]; split; try discriminate; intros [H _]; discriminate.
+  - destruct (memb N.eqb j pend) eqn:M; cbn [snd].
+    + destruct f as [sl0|]; cbn [snd]; split.
+      * discriminate.
+      * intros [H _]; discriminate.
+      * intro H; injection H as <- <-. split; [reflexivity | exact M].
+      * intros [H _]; injection H as <- <-. reflexivity.
+    + split; [discriminate|]. intros [H M']. injection H as <- <- _. congruence.
+  - split; [discriminate | intros [H _]; discriminate].
+  - split; [discriminate | intros [H _]; discriminate].
+Qed.
+
+(* a lone lookup is the group with its two micro-events *)
+Lemma par_sequential s r f :
+  par_run s [] [PBegin 0 r; PEnd 0 r f] =
+    (fst (step s (Lookup r f)),
+     match snd (step s (Lookup r f)) with
+     | OSlot sl => [(0, r, Some sl)]
+     | OErr => [(0, r, None)]
+     | _ => []
+     end).
+Proof.
+  cbn. destruct (get s r) as [sl0|] eqn:G; cbn.
+  - rewrite ?G. reflexivity.
+  - destruct f as [sl|]; cbn; reflexivity.
+Qed.
+
+(* two goroutines missing on the same root, the first one's fetch fails: the first is an error,
+   the second returns what ITS OWN fetch gave (the slot, or an error), never a slot out of nothing *)
+Lemma par_shared_failure s r f2 :
+  get s r = None ->
+  snd (par_run s [] [PBegin 1 r; PBegin 2 r; PEnd 1 r None; PEnd 2 r f2]) = [(1, r, None); (2, r, f2)].
+Proof.
+  intro G. cbn. rewrite !G. cbn. destruct f2; reflexivity.
+Qed.
 
 Lemma failed_fetch s r : get s r = None -> step s (Lookup r None) = (s, OErr).
 Proof. intro G. cbn. rewrite G. reflexivity. Qed.
